@@ -143,19 +143,17 @@ Proof.
       apply Res; [exact Fr|]. rewrite Er. reflexivity.
 Qed.
 
-(** * s1.Interval.Expanded: closed theorems *)
+(** * s1.Interval.Expanded: closed theorems, every valid interval, every non-NaN margin >= 0 *)
 Theorem s1_expanded_valid i m : valid_s1 i -> nonnan m -> 0 <= rank m ->
-  len_ok (s1_Interval_Lo i) (s1_Interval_Hi i) m -> valid_s1 (s1_Interval_Expanded i m).
+  valid_s1 (s1_Interval_Expanded i m).
 Proof. exact (s1_expanded_valid_under_H remainder_exact i m). Qed.
 
 Theorem s1_expanded_sound i m x : valid_s1 i -> nonnan m -> 0 <= rank m ->
-  len_ok (s1_Interval_Lo i) (s1_Interval_Hi i) m ->
   inrange x -> mem_s1 i x -> mem_s1 (s1_Interval_Expanded i m) x.
 Proof. exact (s1_expanded_sound_under_H remainder_exact i m x). Qed.
 
-(** the shape of the premise C19_s1_expanded_sound of Proofs/C10_Rect.v, for margins up to 3
-    radians (for larger margins the statement is false of the interval {pi, succ(-pi)}) *)
-Corollary C19_s1_expanded_sound_le3 : forall i m, valid_s1 i -> nonnan m -> 0 <= rank m <= 3 ->
+(** exactly the premise C19_s1_expanded_sound of Proofs/C10_Rect.v *)
+Corollary C19_s1_expanded_sound : forall i m, valid_s1 i -> nonnan m -> (0 <= rank m < top) ->
   valid_s1 (s1_Interval_Expanded i m) /\
   forall x, inrange x -> mem_s1 i x -> mem_s1 (s1_Interval_Expanded i m) x.
-Proof. exact (s1_expanded_sound_small_margin remainder_exact). Qed.
+Proof. intros i m V Nm [H0 _]. exact (s1_expanded_sound_any_margin remainder_exact i m V Nm H0). Qed.
